@@ -14,6 +14,7 @@ import NxsModel.Handshake
 import NxsModel.Reasm
 import NxsModel.Lemmas.Handshake
 import NxsModel.Lemmas.SerialLawful
+import NxsModel.Lemmas.R7Handshake
 namespace Nxs.C10
 open Nxs Nxs.Handshake
 
@@ -410,5 +411,174 @@ theorem recv_loop_shape :
 example : (connect ⟨3, 3, 0⟩ [] .ok).outcome = .connected 3 3 0 ∧ (connect ⟨3, 3, 0⟩ [] .ok).time = 16 := by
   decide +kernel
 example : (connect ⟨2, 3, 0⟩ [.ok, .short] .ok).outcome = .raised .structError := by decide +kernel
+
+/-! ### Round 7: independence of the unread part of the link, request count, closed form of the bound
+
+The link is read as a stream: entry `i` of the script, the default behaviour beyond its end
+(`List.getD script i dflt`).  One connect awaits at most `reqBound chmax` = attempts × (1 + chmax × tries)
+answers, whatever they are; nothing beyond that point of the stream can influence it. -/
+
+/-- determinism / independence of irrelevant state: the WHOLE result of connect (outcome, virtual time, request
+    log, thread and interface flags) is a function of the first `reqBound chmax` answers of the link only — two
+    links (scripts of any lengths, any defaults) that agree there give the same result -/
+theorem connect_depends_on_prefix (dev : DevDesc) (script script' : List Resp) (dflt dflt' : Resp)
+    (h : ∀ i, i < reqBound dev.chmax → script.getD i dflt = script'.getD i dflt') :
+    connect dev script dflt = connect dev script' dflt' :=
+  connect_congr dev script script' dflt dflt' h
+
+/-- the number of awaited answers with the current counters: 6 × (1 + chmax × 6) -/
+theorem req_bound_eq (chmax : Nat) : reqBound chmax = 6 * (chmax * 6 + 1) := rfl
+
+/-- compositionality: whatever follows the first `reqBound chmax` entries of the script (later faults, the
+    answers to later calls of a session, the default) is irrelevant to this connect -/
+theorem connect_suffix_irrelevant (dev : DevDesc) (p q q' : List Resp) (dflt dflt' : Resp)
+    (hp : reqBound dev.chmax ≤ p.length) :
+    connect dev (p ++ q) dflt = connect dev (p ++ q') dflt' := by
+  apply connect_depends_on_prefix
+  intro i hi
+  have : i < p.length := Nat.lt_of_lt_of_le hi hp
+  simp [List.getD_eq_getElem?_getD, List.getElem?_append_left this, List.getElem?_eq_getElem this]
+
+/-- an exhausted script IS its default repeated: padding a script with any number of copies of the default
+    changes nothing (so `silent_link`, stated for the empty script, holds for the all-silent link of every length) -/
+theorem connect_pad_default (dev : DevDesc) (script : List Resp) (dflt : Resp) (m : Nat) :
+    connect dev (script ++ List.replicate m dflt) dflt = connect dev script dflt := by
+  apply connect_depends_on_prefix
+  intro i _
+  simp only [List.getD_eq_getElem?_getD]
+  by_cases hi : i < script.length
+  · rw [List.getElem?_append_left hi]
+  · have hi' : script.length ≤ i := Nat.le_of_not_lt hi
+    rw [List.getElem?_append_right hi', List.getElem?_eq_none hi']
+    by_cases h2 : i - script.length < m
+    · simp [h2]
+    · simp [h2]
+
+/-- the all-silent link of EVERY length (and every declared device): TimeoutError after exactly 6.8 s -/
+theorem silent_link_any_length (dev : DevDesc) (m : Nat) (dflt : Resp)
+    (hm : reqBound dev.chmax ≤ m) :
+    (connect dev (List.replicate m .silent) dflt).outcome = .raised .timeout ∧
+    (connect dev (List.replicate m .silent) dflt).time = 68 := by
+  have h : connect dev (List.replicate m .silent) dflt = connect dev [] .silent := by
+    apply connect_depends_on_prefix
+    intro i hi
+    have : i < m := Nat.lt_of_lt_of_le hi hm
+    simp [List.getD_eq_getElem?_getD, this]
+  rw [h]; exact silent_link dev
+
+/-- no spinning: connect writes at most 1 + attempts × (2 + chmax × tries) requests (the stop request; per attempt
+    the common-info request, the padding set-up and `tries` channel-info requests per channel), for every link -/
+theorem connect_requests_bounded (dev : DevDesc) (script : List Resp) (dflt : Resp) :
+    (connect dev script dflt).sent.length ≤ 1 + Gen.Comm.connectAttempts * attemptWrites dev.chmax :=
+  connect_sent_le dev script dflt
+
+/-- … with the current counters: at most 13 + 36 × chmax requests -/
+theorem connect_requests_le (dev : DevDesc) (script : List Resp) (dflt : Resp) :
+    (connect dev script dflt).sent.length ≤ 13 + 36 * dev.chmax := by
+  have h := connect_requests_bounded dev script dflt
+  have e : Gen.Comm.connectAttempts * attemptWrites dev.chmax = 6 * (dev.chmax * 6 + 2) := rfl
+  rw [e] at h
+  omega
+
+/-- the time bound is the instance, at the generated timeouts and counters, of the closed form
+    `boundP drain cmnT chT attempts tries chmax = drain + attempts × (cmnT + drain + chmax × tries × chT)` -/
+theorem bound_closed_form (chmax : Nat) :
+    bound chmax = boundP drain Gen.Comm.cmninfoTimeout Gen.Comm.chinfoTimeout Gen.Comm.connectAttempts
+      Gen.Comm.chinfoAttempts chmax := rfl
+
+/-- the closed form is monotone in every parameter: a longer time-out, more attempts, more tries or more channels
+    never decrease the bound -/
+theorem bound_closed_form_mono {d d' a a' b b' c c' e e' n n' : Nat}
+    (hd : d ≤ d') (ha : a ≤ a') (hb : b ≤ b') (hc : c ≤ c') (he : e ≤ e') (hn : n ≤ n') :
+    boundP d a b c e n ≤ boundP d' a' b' c' e' n' :=
+  boundP_mono hd ha hb hc he hn
+
+/-- in particular in the number of channels the device declares -/
+theorem bound_mono {n n' : Nat} (h : n ≤ n') : bound n ≤ bound n' := by
+  rw [bound_closed_form, bound_closed_form]
+  exact boundP_mono (Nat.le_refl _) (Nat.le_refl _) (Nat.le_refl _) (Nat.le_refl _) (Nat.le_refl _) h
+
+/-- instances: a one-channel device awaits at most 42 answers; a script that differs only from entry 42 on, and in
+    the default, gives the same connect (here: a fault-ridden but finally successful one) -/
+example : reqBound 1 = 42 := by decide
+example :
+    let p : List Resp := [.silent, .wrong, .ok, .nack, .noise, .ok] ++ List.replicate 36 .garbage
+    connect ⟨1, 3, 0⟩ (p ++ [.short, .badName]) .silent = connect ⟨1, 3, 0⟩ (p ++ [.ok]) .garbage ∧
+    (connect ⟨1, 3, 0⟩ (p ++ [.short, .badName]) .silent).outcome = .connected 1 3 0 ∧
+    reqBound 1 ≤ p.length := by
+  decide +kernel
+example : (connect ⟨2, 3, 0⟩ ([.ok, .silent] ++ List.replicate 5 .ok) .ok) = connect ⟨2, 3, 0⟩ [.ok, .silent] .ok := by
+  decide +kernel
+example : (connect ⟨3, 3, 8⟩ (List.replicate 200 .silent) .ok).time = 68 := by decide +kernel
+/-- the request bound is attained: every channel-info request of every attempt unanswered by a cheap wrong frame -/
+example : (connect ⟨2, 3, 8⟩ [] .wrong).sent.length = 7 ∧
+    (connect ⟨1, 3, 8⟩ ([.ok] ++ List.replicate 6 .wrong ++ [.ok] ++ List.replicate 6 .wrong ++ [.ok] ++
+      List.replicate 6 .wrong ++ [.ok] ++ List.replicate 6 .wrong ++ [.ok] ++ List.replicate 6 .wrong ++ [.ok]) .wrong
+      ).sent.length = 44 := by
+  decide +kernel
+example : boundP 8 10 10 6 6 3 = bound 3 ∧ bound 3 = 1196 := by decide
+
+/-! ### Round 7: the sharp time bound and the links that attain it
+
+`bound` is safe but not attained: an attempt whose common-info wait ran out never reaches the channel loops, and
+a channel that IS answered has used at most tries − 1 waits.  `sharpBound chmax` = 0.8 s + 6 × (1 s if the device
+has no channels, else 1.8 s + chmax × 5 s) is valid for every link and is attained for every `chmax`. -/
+
+/-- every link, every device: connect returns or raises within the sharp bound -/
+theorem connect_sharp_bounded (dev : DevDesc) (script : List Resp) (dflt : Resp) :
+    (connect dev script dflt).time ≤ sharpBound dev.chmax :=
+  connect_time_sharp dev script dflt
+
+/-- the sharp bound written out, and its relation to the round-1 bound (never above it; strictly below it for
+    every `chmax`) -/
+theorem sharp_bound_eq (chmax : Nat) :
+    sharpBound chmax = 8 + 6 * (if chmax = 0 then 10 else 18 + chmax * 50) ∧
+    sharpBound chmax < bound chmax := by
+  refine ⟨rfl, ?_⟩
+  rw [bound_eq]; unfold sharpBound attemptSharp; split <;> omega
+
+/-- tightness, devices with channels — for EVERY number `n + 1` of channels (induction on `n`, not an instance):
+    the link that answers common-info at once, answers the first `n` channels at their last try and never answers
+    the last channel, six times over, makes connect raise TimeoutError after exactly `sharpBound (n + 1)` -/
+theorem sharp_bound_attained (dev : DevDesc) (n : Nat) (hn : dev.chmax = n + 1) (dflt : Resp) :
+    (connect dev (worstScript n 6) dflt).outcome = .raised .timeout ∧
+    (connect dev (worstScript n 6) dflt).time = sharpBound dev.chmax :=
+  connect_worst dev n hn dflt
+
+/-- tightness, a device without channels: the all-silent link of any sufficient length attains the bound -/
+theorem sharp_bound_attained_zero (dev : DevDesc) (h0 : dev.chmax = 0) (m : Nat) (hm : 6 ≤ m) (dflt : Resp) :
+    (connect dev (List.replicate m .silent) dflt).time = sharpBound dev.chmax := by
+  have hb : reqBound dev.chmax ≤ m := by rw [h0]; exact hm
+  rw [(silent_link_any_length dev m dflt hb).2, h0]; rfl
+
+/-- the sharp bound is monotone in the number of channels -/
+theorem sharp_bound_mono {n n' : Nat} (h : n ≤ n') : sharpBound n ≤ sharpBound n' := by
+  unfold sharpBound attemptSharp; split <;> split <;> omega
+
+/-- instances: the worst link for a 2-channel device (script of 6 × 13 answers), 4.16 min for 40 channels -/
+example : (connect ⟨2, 3, 8⟩ (worstScript 1 6) .ok).time = 716 ∧ sharpBound 2 = 716 ∧ bound 2 = 836 ∧
+    (worstScript 1 6).length = 78 := by decide +kernel
+example : sharpBound 0 = 68 ∧ sharpBound 40 = 12116 ∧ bound 40 = 14516 := by decide
+
+/-- connect followed by disconnect, whatever point of the handshake the link failed at (any script): both calls
+    together return within the sharp bound plus one drain -/
+theorem connect_disconnect_sharp_bounded (dev : DevDesc) (script : List Resp) (dflt : Resp) :
+    (disconnectAfter (connect dev script dflt)).time ≤ sharpBound dev.chmax + 8 := by
+  have h1 := disconnect_bounded dev script dflt
+  have h2 := connect_sharp_bounded dev script dflt
+  omega
+
+/-- attained: a connect that succeeds at the last possible moment (five worst attempts, then every channel answered
+    at its last try), then disconnect -/
+example :
+    let sc := worstScript 1 5 ++ [.ok] ++ lateOk ++ lateOk
+    (connect ⟨2, 3, 0⟩ sc .silent).outcome = .connected 2 3 0 ∧
+    (disconnectAfter (connect ⟨2, 3, 0⟩ sc .silent)).time = 706 + 8 ∧ sharpBound 2 + 8 = 724 := by decide +kernel
+
+-- NOT PROVED (stronger form of `connect_depends_on_prefix`, not attempted for lack of time): the result of connect
+-- depends only on the prefix of the script it actually CONSUMED, i.e. with `k` = number of awaited requests of
+-- `connect dev script dflt` (`k ≤ reqBound dev.chmax`):
+--   ∀ script' dflt', (∀ i, i < k → script.getD i dflt = script'.getD i dflt') → connect dev script' dflt' = connect dev script dflt
+-- (`Result` does not expose `k`; it needs the final `St.script` of `connectLoop`.)
 
 end Nxs.C10
